@@ -534,6 +534,10 @@ def core_configs(tier):
     for fl in fls:
         for (N, M) in pairs:
             for ab in allocs:
+                # thorough: every flavour x every capacity pair with the plain allocator; the allocator-trait variants on the
+                # flavours / pairs where allocator behaviour can matter (throwing elements, all three capacity relations)
+                if tier != 'quick' and ab != '00000' and not (fl in ('En', 'Et') and (N, M) in ((0, 3), (3, 1), (1, 3), (3, 3))):
+                    continue
                 cfgs.append(Config(fl, N, M, ab))
     if tier == 'quick':
         cfgs += [Config('Et', 3, 1, '11100'), Config('En', 1, 3, '01000'), Config('En', 0, 3, '10001'), Config('Et', 1, 3, '00010')]
@@ -555,15 +559,24 @@ def differential(tier, seed, cfgs=None, case_fn=None, label='core'):
         exes, errs = build_harnesses(cfgs)
         total = dict(lines=0, cases=0, dis={}, discount={}, w={}, wcount={}, crashes=[], stats={}, distinct=0, samples=[], build_errors=errs,
                      configs=[c.describe() for c in cfgs], tier=tier, seed=seed)
-        jobs = []
-        with cf.ThreadPoolExecutor(max_workers=NCPU) as ex:
+        # worker PROCESSES (the comparison of the two streams is Python code: threads would serialise on the GIL); chunks are
+        # generated lazily and at most a bounded number is in flight, so memory stays flat however large the tier is
+        def all_chunks():
             for c in cfgs:
                 if c.key() not in exes:
                     continue
                 gen = case_fn(c, tier, seed) if case_fn else cases_for(c, tier, seed)
                 for chunk in chunked(gen):
-                    jobs.append(ex.submit(run_chunk, c, exes[c.key()], chunk))
-            for j in cf.as_completed(jobs):
+                    yield c, chunk
+        with cf.ProcessPoolExecutor(max_workers=NCPU) as ex:
+            pending = set()
+            for c, chunk in all_chunks():
+                pending.add(ex.submit(run_chunk, c, exes[c.key()], chunk))
+                if len(pending) >= 3 * NCPU:
+                    done, pending = cf.wait(pending, return_when=cf.FIRST_COMPLETED)
+                    for j in done:
+                        merge(total, j.result())
+            for j in cf.as_completed(pending):
                 merge(total, j.result())
         total['wall_s'] = time.time() - t0
         total['cached'] = False
